@@ -48,7 +48,37 @@ struct TS {
     stay_num: u64,
     stay_den: u64,
     panicked: Option<String>,
+    /// PCT mode (a third of the runs, decided by the seed): every actor - a
+    /// thread, or one kind of extra action - has a priority, the runnable
+    /// actor with the highest priority runs, and at `depth - 1` random steps
+    /// the running actor drops below everybody else. One actor can stay
+    /// parked at a point for arbitrarily many steps of the others, which the
+    /// uniform strategy reaches with probability 2^-steps.
+    pct: Option<Pct>,
 }
+
+struct Pct {
+    prio: BTreeMap<String, u64>,
+    change_at: Vec<u64>,
+    step: u64,
+    next_low: u64,
+    /// stalls: a thread that reaches a scheduling point inside an operation
+    /// (the hand-placed points mark race windows) drops below everybody
+    /// else with probability 1 / `stall_k`, at most `stalls_left` times
+    stalls_left: u64,
+    stall_k: u64,
+}
+
+/// the actor a choice label belongs to: `T3`, or `X:ser` for `X:ser:17`
+fn actor(label: &str) -> String {
+    match label.strip_prefix("X:") {
+        Some(rest) => format!("X:{}", rest.split(':').next().unwrap_or("")),
+        None => label.to_string(),
+    }
+}
+
+/// sites at which the calling thread cannot make progress by itself
+fn is_wait_site(site: &str) -> bool { site == "await_pending" || site == "shard_lock_wait" }
 
 pub struct Sched {
     m: Mutex<TS>,
@@ -106,6 +136,28 @@ impl Sched {
             match want {
                 Some(w) if opts.contains(&w) => w,
                 _ => opts[0].clone(),
+            }
+        } else if g.pct.is_some() {
+            let TS { pct, rng, .. } = &mut *g;
+            let p = pct.as_mut().unwrap();
+            p.step += 1;
+            for o in &opts {
+                let a = actor(o);
+                if !p.prio.contains_key(&a) {
+                    // a new actor gets a random high priority
+                    let v = 1_000_000 + rng.below(1_000_000);
+                    p.prio.insert(a, v);
+                }
+            }
+            let best = opts.iter().max_by_key(|o| (p.prio[&actor(o)], std::cmp::Reverse((*o).clone()))).unwrap().clone();
+            if p.change_at.contains(&p.step) {
+                // priority change point: the actor that would run drops below all
+                p.next_low -= 1;
+                let low = p.next_low;
+                p.prio.insert(actor(&best), low);
+                opts.iter().max_by_key(|o| (p.prio[&actor(o)], std::cmp::Reverse((*o).clone()))).unwrap().clone()
+            } else {
+                best
             }
         } else {
             let me_label = me.map(|m| format!("T{m}"));
@@ -180,6 +232,20 @@ pub fn point(site: &'static str) {
         g.events += 1;
         *g.hits.entry(site).or_insert(0) += 1;
         g.trace_hash = fnv_step(g.trace_hash, label(site));
+        let TS { pct, rng, .. } = &mut *g;
+        if let Some(p) = pct.as_mut() {
+            // a waiting thread yields to everybody else; a thread inside a
+            // race window is sometimes stalled there
+            let stall = site != "h_op" && p.stalls_left > 0 && rng.chance(1, p.stall_k);
+            if stall {
+                p.stalls_left -= 1;
+            }
+            if is_wait_site(site) || stall {
+                p.next_low -= 1;
+                let low = p.next_low;
+                p.prio.insert(format!("T{me}"), low);
+            }
+        }
     }
     if let Some(f) = &s.on_point {
         f(site);
@@ -193,8 +259,26 @@ pub fn is_registered() -> bool { ME.with(Cell::get).is_some() }
 pub fn run(cfg: Config, bodies: Vec<Box<dyn FnOnce() + Send>>) -> Report {
     let n = bodies.len();
     let replaying = cfg.replay.is_some();
+    let pct = {
+        let mut r = Rng::new(cfg.seed).split(label("token-pct"));
+        if !replaying && r.chance(1, 3) {
+            let depth = r.range(1, 4);
+            let horizon = *r.pick(&[30u64, 100, 300, 1000]);
+            Some(Pct {
+                prio: BTreeMap::new(),
+                change_at: (1..depth).map(|_| r.range(1, horizon)).collect(),
+                step: 0,
+                next_low: 1_000_000,
+                stalls_left: r.range(0, 3),
+                stall_k: *r.pick(&[4u64, 16, 64]),
+            })
+        } else {
+            None
+        }
+    };
     let s = Arc::new(Sched {
         m: Mutex::new(TS {
+            pct,
             rng: Rng::new(cfg.seed).split(label("token-schedule")),
             state: vec![St::NotStarted; n],
             current: None,
